@@ -19,6 +19,7 @@ IDMAP = {
     "str": {"A": "zed", "B": "abe"}, "int": {"A": 7, "B": 3}, "cat": {"A": "zed", "B": "abe"},
     "negint": {"A": -2, "B": 3}, "float": {"A": 1.5, "B": 2.5}, "emptystr": {"A": "", "B": "abe"},
     "nanid": {"A": np.nan, "B": "abe"}, "mixed": {"A": "zed", "B": 3},
+    "nullint": {"A": pd.NA, "B": 3}, "catnan": {"A": np.nan, "B": "abe"},
 }
 
 
@@ -26,8 +27,10 @@ def build_frame(rows, idkind, text, nfeat):
     ids = [IDMAP[idkind][r["id"]] for r in rows]
     if idkind in ("nanid", "mixed"):
         idcol = pd.Series(ids, dtype=object)
-    elif idkind == "cat":
+    elif idkind in ("cat", "catnan"):
         idcol = pd.Series(pd.Categorical(ids))
+    elif idkind == "nullint":
+        idcol = pd.Series(ids, dtype="Int64")
     else:
         idcol = pd.Series(ids, dtype=(object if idkind in ("str", "emptystr") else None)) if ids else pd.Series([], dtype=object)
     df = pd.DataFrame({"ID": idcol, "TIME": pd.Series([AGE[r["age"]] for r in rows], dtype=float)})
@@ -43,7 +46,7 @@ def build_frame(rows, idkind, text, nfeat):
 def project(dataset, idkind, nfeat):
     rev = {}
     for a, v in IDMAP[idkind].items():
-        rev[v if not (isinstance(v, float) and v != v) else "nan"] = a
+        rev[v if not ((isinstance(v, float) and v != v) or v is pd.NA) else "nan"] = a
     order = [rev.get(i, f"?{i}") for i in dataset.indices]
     visits = []
     ok = True
